@@ -103,6 +103,18 @@ class SymIdx:
         self.bits = bits
 
 
+def unwrap_ref(v):
+    """Box / Unique / NonNull wrappers around a reference -> the reference"""
+    while isinstance(v, Agg) and v.fields:
+        v = v.fields[0]
+    return v if isinstance(v, Ref) else None
+
+
+def make_box(ref):
+    """Box<T> { 0: Unique { pointer: NonNull { pointer: *const T }, _marker }, 1: allocator }"""
+    return Agg([Agg([Agg([ref]), UNIT]), UNIT])
+
+
 UNINIT = Opaque("uninit")
 UNIT = Agg(())
 
@@ -188,6 +200,9 @@ class Interp:
         self.enum_discr_cache = {}
         self._ipdom_cache = {}
         self.arr_blocks = {}   # (name, idx-vector) -> block of variables
+        self.const_pool = {}
+        self.log_arr = False
+        self._st = None
         self.merging = True
         self.no_merge_ranks = bv.decode_ranks
         self.outcomes = []
@@ -224,6 +239,8 @@ class Interp:
             k = pr["k"]
             if k == "deref":
                 v = self.read_loc(st, root, path)
+                if isinstance(v, Agg) and unwrap_ref(v) is not None:
+                    v = unwrap_ref(v)   # deref of a Box
                 if isinstance(v, Ref):
                     root, path = v.root, v.path
                 elif isinstance(v, Opaque):
@@ -276,6 +293,8 @@ class Interp:
 
     def arr_read(self, arr, idx):
         res = self.arr_block(arr.name, arr.width, idx)
+        if self._st is not None:
+            self._st.add_eff(("arrread", arr.name, idx, res))
         for widx, wval in arr.writes:
             res = bv.ite(bv.eq(idx, widx), wval, res)
         return res
@@ -317,9 +336,14 @@ class Interp:
     def read_loc(self, st, root, path):
         if root[0] == "opaque":
             return Opaque("deref:" + str(root[1]))
-        v = st.mem.get(root, UNINIT)
+        if root[0] == "const":
+            v = self.const_pool[root]
+        else:
+            v = st.mem.get(root, UNINIT)
+        self._st = st if self.log_arr else None
         for step in path:
             v = self._descend(v, step)
+        self._st = None
         return v
 
     def _descend(self, v, step):
@@ -434,6 +458,11 @@ class Interp:
             if t["k"] in ("fndef", "closure"):
                 return Opaque("fn", t.get("path"))
             return UNIT
+        if "ref_int" in v:
+            key = ("const", v["ref_int"], v["bits"], v.get("variant"))
+            if key not in self.const_pool:
+                self.const_pool[key] = Enum(v["variant"], ()) if "variant" in v else Int(bv.const(int(v["ref_int"]), v["bits"]))
+            return Ref(key, ())
         if "static" in v:
             return Ref(("static", v["static"]), ())
         return Opaque("const")
@@ -489,6 +518,13 @@ class Interp:
                     return Int(bv.cast(b, dst[0], False))
                 return Opaque("cast")
             # pointer casts, transmute, unsize: value passes through
+            tt = self.types[r["ty"]]
+            if tt["k"] in ("ptr", "ref") and isinstance(v, Agg):
+                u = unwrap_ref(v)
+                if u is not None:
+                    return u
+            if tt["k"] == "int" and isinstance(v, Ref):
+                return Opaque("ptr-as-int")
             return v
         if k == "bin":
             a = self.operand(st, fr, r["a"])
@@ -504,6 +540,12 @@ class Interp:
                 if op == "Neg":
                     return Int(bv.neg(v.bits))
             if op == "PtrMetadata":
+                if isinstance(v, Ref):
+                    tgt = self.read_loc(st, v.root, v.path)
+                    if isinstance(tgt, SymArr):
+                        return Int(bv.const(tgt.n, 64))
+                    if isinstance(tgt, Agg):
+                        return Int(bv.const(len(tgt.fields), 64))
                 return Opaque("len")
             return Opaque("unop")
         if k == "discr":
@@ -533,6 +575,10 @@ class Interp:
 
     def binop(self, st, op, a, b, ta, tb):
         if not (isinstance(a, Int) and isinstance(b, Int)):
+            # a pointer derived from a live reference is never null
+            for p_, q_ in ((a, b), (b, a)):
+                if isinstance(p_, Opaque) and p_.tag == "ptr-as-int" and isinstance(q_, Int) and bv.to_int(q_.bits) == 0 and op in ("Eq", "Ne"):
+                    return bool_int(0 if op == "Eq" else 1)
             ab = self.as_bits(a, ta)
             bb = self.as_bits(b, tb)
             if ab is not None and bb is not None and op in ("Eq", "Ne"):
@@ -958,6 +1004,8 @@ class Interp:
                     if isinstance(v, Int):
                         c = v.bits[0]
                         ok = c if t["expected"] else Mx.NOT(c)
+                    elif t["msg"]["kind"] in ("NullPointerDereference", "MisalignedPointerDereference"):
+                        ok = 1   # debug-build checks on pointers derived from references to live objects
                     else:
                         st.tag("opaque-assert")
                         ok = self.fresh_bool(st, "assert")
